@@ -1,6 +1,7 @@
 (* C16 -- metadata constructors emit only well-formed, faithful metadata. Property theorems only.
    Clock reads are explicit arguments n1 n2 (seconds since 0001-01-01T00:00:00, microseconds stripped). *)
 From CCT Require Import Prelude Hex Num Time Formats Json Auth Construct.
+From CCT.Gen Require Pins.
 From CCT.Gen Require Params.
 From CCT.proofs Require Import HexFacts SigFacts AuthFacts SchemaFacts FamilyFacts ConstructFacts TimeFacts.
 From Coq Require Import Lia.
@@ -105,6 +106,27 @@ Example C16_witness :
   end.
 Proof. vm_compute. repeat split. Qed.
 
+(* BEGIN SOURCE PINS -- written by harness/mkpins.py; the list is what Gen/Pins.v held for the tree the model was validated against *)
+(* the functions of the package this property depends on (call-graph closure of its entry points), each with the fingerprint of its
+   logic (AST without docstrings, annotations, messages, local names): the model and the correspondence runs were validated against
+   exactly these; a change of logic in any of them breaks this obligation and the check then searches for a failing input *)
+Theorem C16_source_pinned : CCT.Gen.Pins.pinned_C16 =
+  [(U"common.checkformat_delegation", U"25fc9c6692b07cdca131");
+   (U"common.checkformat_delegations", U"d6a7d445f5f827a1471c");
+   (U"common.checkformat_expiration_distance", U"65fe8ef409fef94d863f");
+   (U"common.checkformat_hex_key", U"625afdf8f56eb4c97143");
+   (U"common.checkformat_hex_string", U"eac17f8be3d488d4b8a0");
+   (U"common.checkformat_list_of_hex_keys", U"4c9121b74cf062a7e2fd");
+   (U"common.checkformat_natural_int", U"14f9984b8b7ef6014787");
+   (U"common.checkformat_string", U"a139d0a4113d71e93d9f");
+   (U"common.checkformat_utc_isoformat", U"6fed4a2332e7258f7147");
+   (U"common.is_hex_key", U"63c7822022cd24f926e2");
+   (U"common.iso8601_time_plus_delta", U"b5c8f3a544c082f9486e");
+   (U"metadata_construction.build_delegating_metadata", U"d8e9ea184be1b053698e");
+   (U"metadata_construction.build_root_metadata", U"b709b1962b5fff5388d0")].
+Proof. reflexivity. Qed.
+(* END SOURCE PINS *)
+
 Print Assumptions C16_builder_ok_or_argument_error.
 Print Assumptions C16_root_builder_ok_or_argument_error.
 Print Assumptions C16_build_ok_iff.
@@ -117,3 +139,4 @@ Print Assumptions C16_default_build_succeeds.
 Print Assumptions C16_default_expiry_strictly_later.
 Print Assumptions C16_expiry_distance_frozen.
 Print Assumptions C16_witness.
+Print Assumptions C16_source_pinned.
